@@ -1211,6 +1211,49 @@ func ruleQuoRemEarly(c *Ctx) {
 	if n < 1 {
 		c.undecided("quorem.early", fd, "no coefficient comparison guarding the zero-quotient exit found", "C03")
 	}
+	// the integer quotient is inexact only if quotient digits were dropped: its sticky flag must not be
+	// derived from the remainder of the division (which is the second result, not an error term)
+	remKeys := map[string]bool{}
+	ast.Inspect(fd.Body, func(nd ast.Node) bool {
+		if as, ok := nd.(*ast.AssignStmt); ok && len(as.Lhs) == 2 && len(as.Rhs) == 1 {
+			if call, ok := as.Rhs[0].(*ast.CallExpr); ok {
+				cn := p.calleeName(call)
+				if strings.HasPrefix(cn, "uint") && strings.HasSuffix(cn, ".div") {
+					if k := p.exprKey(as.Lhs[1]); k != "" {
+						remKeys[k] = true
+					}
+				}
+			}
+		}
+		return true
+	})
+	sv := p.stickyVars(fd)
+	m := 0
+	walkStack(fd.Body, func(nd ast.Node, stack []ast.Node) {
+		as, ok := nd.(*ast.AssignStmt)
+		if !ok || len(as.Lhs) != 1 {
+			return
+		}
+		if _, isSticky := sv[p.exprKey(as.Lhs[0])]; !isSticky || p.constOf(as.Rhs[0]) == nil {
+			return
+		}
+		for i := len(stack) - 1; i >= 0; i-- {
+			ifs, ok := stack[i].(*ast.IfStmt)
+			if !ok || !containsNode(ifs.Body, as) {
+				continue
+			}
+			m++
+			reads := ""
+			for k := range remKeys {
+				if p.readsVar(ifs.Cond, k) {
+					reads = strings.Split(k, "@")[0]
+				}
+			}
+			c.check(reads == "", fmt.Sprintf("quorem.sticky#%d", m), ifs, "the quotient's sticky flag depends on dropped quotient digits only",
+				fmt.Sprintf("QuoRemWithMode: the sticky flag of the quotient is set under `%s`, which reads the remainder %s: a non-zero remainder does not make the integer quotient inexact", p.exprStr(ifs.Cond), reads), "C03")
+			break
+		}
+	})
 }
 
 // A general division `q, r = x.div(y)` yields quotient digits: they are part of the result or, when
@@ -1773,4 +1816,143 @@ func selfTestProg(src string) (*Prog, error) {
 		}
 	}
 	return pr, nil
+}
+
+// An overflow guard `if E > maxBiasedExponent { return ±Inf }` in front of compose(.., sig, E) is only
+// right if (sig, E) is already clamped: a short coefficient with an exponent above the maximum still
+// denotes a representable value (1e6120 is 1000000000e6111). reduceN clamps (E7.clamp); anywhere else a
+// scale-up loop `for E > maxBiasedExponent && sig[top] <= L/10 { sig = sig.mul64(10); E-- }` must precede
+// the guard.
+func ruleClampBeforeGuard(c *Ctx) {
+	p := c.P
+	n := 0
+	for _, name := range p.sortedFuncNames() {
+		fd := p.Funcs[name]
+		if fd.Body == nil || name == "compose" || strings.HasPrefix(name, "RoundingMode.") {
+			continue
+		}
+		k := 0
+		walkStack(fd.Body, func(nd ast.Node, stack []ast.Node) {
+			call, ok := nd.(*ast.CallExpr)
+			if !ok || !p.isPkgFunc(call, "compose") || len(call.Args) != 3 {
+				return
+			}
+			ekey := p.exprKey(call.Args[2])
+			skey := p.exprKey(call.Args[1])
+			if ekey == "" || skey == "" {
+				return
+			}
+			// the guard on this exponent that precedes the call in the enclosing block chain
+			full := append(append([]ast.Node{}, stack...), nd)
+			chain := blockChain(full)
+			var guard ast.Stmt
+			var gList []ast.Stmt
+			gIdx := -1
+			for ci := len(chain) - 1; ci >= 0 && guard == nil; ci-- {
+				bp := chain[ci]
+				for j := bp.idx - 1; j >= 0; j-- {
+					if p.isOverflowGuard(bp.list[j], ekey) {
+						guard, gList, gIdx = bp.list[j], bp.list, j
+						break
+					}
+				}
+			}
+			if guard == nil {
+				return // not a guarded site (E7.G3 decides those)
+			}
+			// walk back from the guard to the statement that last defines the exponent
+			how := ""
+			for j := gIdx - 1; j >= 0 && how == ""; j-- {
+				s := gList[j]
+				if f, ok := s.(*ast.ForStmt); ok && f.Cond != nil {
+					isClamp, bounded := false, false
+					for _, cj := range conjuncts(f.Cond) {
+						x, op, kv, ok := p.normCmp(cj)
+						if !ok {
+							continue
+						}
+						if op == token.GTR && kv.IsInt64() && kv.Int64() == specMaxBiasedExp && p.exprKey(x) == ekey {
+							isClamp = true
+						}
+						if ix, isIx := ast.Unparen(x).(*ast.IndexExpr); isIx && op == token.LEQ && p.exprKey(ix.X) == skey {
+							bounded = true
+						}
+					}
+					if isClamp && bounded {
+						how = "clamp loop"
+						break
+					}
+				}
+				if !p.assignsTo(s, ekey) {
+					continue
+				}
+				if p.lastDefIsReduce(s, ekey) {
+					how = "reduceN"
+					break
+				}
+				how = "unclamped:" + p.posStr(s)
+			}
+			if how == "" {
+				return
+			}
+			k++
+			n++
+			c.check(!strings.HasPrefix(how, "unclamped:"), fmt.Sprintf("clampguard:%s#%d", name, k), guard, "the pair (coefficient, exponent) is clamped ("+how+") before the overflow guard",
+				fmt.Sprintf("%s: the exponent tested by the overflow guard was last set at %s and no scale-up loop follows: a value with a short coefficient and an exponent above the maximum (for example 1e6120 = 1000000000e6111) is representable but would be returned as ±Inf", name, strings.TrimPrefix(how, "unclamped:")), funcProps(name)...)
+		})
+	}
+	if n < 20 {
+		c.undecided("clampguard.count", nil, fmt.Sprintf("only %d guarded compose sites found", n))
+	}
+}
+
+// lastDefIsReduce: on every path through s that assigns key, the last assignment is the result of a
+// reduceN call (if/else and switch arms are followed; an arm that does not assign key at all fails).
+func (p *Prog) lastDefIsReduce(s ast.Stmt, key string) bool {
+	var lastOf func(list []ast.Stmt) bool
+	lastOf = func(list []ast.Stmt) bool {
+		for j := len(list) - 1; j >= 0; j-- {
+			if !p.assignsTo(list[j], key) {
+				continue
+			}
+			return p.lastDefIsReduce(list[j], key)
+		}
+		return false
+	}
+	switch x := s.(type) {
+	case *ast.AssignStmt:
+		if len(x.Rhs) == 1 {
+			if rc, ok := x.Rhs[0].(*ast.CallExpr); ok && strings.HasPrefix(p.calleeName(rc), "RoundingMode.reduce") {
+				return true
+			}
+		}
+		return false
+	case *ast.BlockStmt:
+		return lastOf(x.List)
+	case *ast.IfStmt:
+		if !lastOf(x.Body.List) && !exitsBlock(x.Body.List) {
+			return false
+		}
+		switch e := x.Else.(type) {
+		case nil:
+			return false
+		case *ast.BlockStmt:
+			return lastOf(e.List) || exitsBlock(e.List)
+		default:
+			return p.lastDefIsReduce(e, key)
+		}
+	case *ast.SwitchStmt:
+		hasDefault := false
+		for _, cc := range x.Body.List {
+			cl := cc.(*ast.CaseClause)
+			if cl.List == nil {
+				hasDefault = true
+			}
+			if !lastOf(cl.Body) && !exitsBlock(cl.Body) {
+				return false
+			}
+		}
+		return hasDefault
+	}
+	return false
 }
